@@ -100,7 +100,7 @@ def build(ctx):
 def sizes(ctx):
     if ctx.tier == "quick":
         return {"lua_hist": 900, "maxops": 30, "e2e_maxops": 30, "lua_fn": 800, "programs": 130, "trigger": 10, "fn_programs": 12}
-    return {"lua_hist": 8000, "maxops": 200, "e2e_maxops": 60, "lua_fn": 20000, "programs": 800, "trigger": 80, "fn_programs": 100}
+    return {"lua_hist": 6000, "maxops": 200, "e2e_maxops": 60, "lua_fn": 20000, "programs": 600, "trigger": 80, "fn_programs": 100}
 
 
 # ---- generation -------------------------------------------------------------------------------------------
